@@ -243,6 +243,11 @@ func (c *CheckCtx) run() int {
 				return c.fail(2, "generate: %v", err)
 			}
 		}
+		if p == "datacodec" {
+			if err := genCodecHarnesses(c, c.P.ID); err != nil {
+				return c.fail(2, "generate: %v", err)
+			}
+		}
 	}
 	if c.P.Gen != nil {
 		if err := c.P.Gen(c); err != nil {
@@ -779,6 +784,9 @@ func (c *CheckCtx) replayFile(path string) int {
 	for _, p := range c.P.Pkgs {
 		if p == "frame" {
 			genEqFile(c)
+		}
+		if p == "datacodec" {
+			genCodecHarnesses(c, c.P.ID)
 		}
 	}
 	if c.P.Gen != nil {
